@@ -16,7 +16,7 @@ func VerifC04_t_reincarnationDeep() {
 	vpReincarnation(vpScenarioOpts{prop: "C04", topos: []int{0, 1}, kinds: []int{vpKindSts, vpKindDp, vpKindBare, vpKindTApp}, earlySteps: 2, lateSteps: 2})
 }
 
-// BOUND: topology 0; two statefulset pods ss-0, ss-1 bound (symbolic policy); ss-0 disappears without its event being handled (so a resync pass has API calls to make); a resync pass runs and, atomically inside any one window right before/after one of its API-server calls (symbolic window 0..10), ss-1 is re-incarnated: deleted, its event handled, re-created with a new UID, filtered and bound on any approved node. Afterwards every live bound pod must still own its IP
+// BOUND: topology 0; two statefulset pods ss-0, ss-1 bound (symbolic policy); ss-0 disappears without its event being handled (so a resync pass has API calls to make); a resync pass runs and, atomically inside any one window right before/after one of its API-server calls (symbolic window 0..10), either ss-1 is re-incarnated (deleted, its event handled, re-created with a new UID, filtered and bound on any approved node) or the vanished ss-0 is re-created with a new UID, filtered and bound (parking at the pod key lock the pass holds). Afterwards every live bound pod must still own its IP
 // ASSUME: C04: interference granularity = API-server calls: the second activity runs to completion inside one window of the first; interleavings in which it would have to wait for a lock the first holds are discarded
 func VerifC04_q_resyncVsReincarnation() { vpResyncVsReincarnation("C04") }
 
@@ -44,12 +44,16 @@ func vpResyncVsReincarnation(prop string) {
 	w.checkAll(prop, "setup")
 	w.deletePodSilently("ss-0")
 	w.syncListers()
+	// inside the pass either the running pod ss-1 is re-incarnated, or the vanished pod ss-0 comes back under a new UID
+	who := nondetPick("ss-1", "ss-0")
 	w.interferer = func() {
-		name := "ss-1"
-		w.deletePod(name)
-		w.syncListers()
-		for len(w.pending) > 0 {
-			_ = w.handleEvent(0)
+		name := who
+		if name == "ss-1" {
+			w.deletePod(name)
+			w.syncListers()
+			for len(w.pending) > 0 {
+				_ = w.handleEvent(0)
+			}
 		}
 		w.createPod(vpMakePod(name, "U2", vpKindSts, policy, "", ""))
 		w.syncListers()
@@ -228,4 +232,37 @@ func vpReserveReleaseVsRebind(prop string) {
 	}
 	verifReach("replacement-overlapped-release-of-the-reserve")
 	w.checkAll(prop, "an API release of a reserved address that overlapped the scheduling of the replacement pod")
+}
+
+// BOUND: topologies {0,1}; kinds {statefulset, deployment}; symbolic policy; with or without the cloud provider; a pod is filtered and bound; the scheduler repeats the Bind call for it on the same node (a lost answer, an extender retry) while the pod is pending-bound or already running: the API server refuses the second binding (the pod is already assigned); whatever the repeated Bind queued is handled, then one resync pass. The live pod keeps its address
+func VerifC04_q_repeatedBind() {
+	w := vpNewWorld(nondetChoice(2), nondetBool())
+	if err := w.configure(); err != nil {
+		return
+	}
+	w.setStatefulSet(2)
+	w.setDeployment(2)
+	kind := []int{vpKindSts, vpKindDp}[nondetChoice(2)]
+	policy := nondetPick("", "immutable", "never")
+	name := vpPodNameOf(kind, 0)
+	w.createPod(vpMakePod(name, "U1", kind, policy, "", ""))
+	w.syncListers()
+	nodes, err := w.filter(name, "n1", "n5", "n2", "n3")
+	if err != nil || len(nodes) == 0 || w.bind(name, nodes[0]) != nil {
+		return
+	}
+	if nondetBool() {
+		w.setRunning(name)
+	}
+	w.syncListers()
+	_ = w.bind(name, nodes[0])
+	for len(w.pending) > 0 {
+		_ = w.handleEvent(0)
+	}
+	verifReach("repeated-bind-answered")
+	w.setRunning(name)
+	w.syncListers()
+	w.checkAll("C04", "a repeated Bind call for a pod that is already bound")
+	w.resync()
+	w.checkAll("C04", "a resync pass after a repeated Bind call")
 }
